@@ -1858,6 +1858,8 @@ class GraphProp:
             # deeper bounds: one more order per axis than the quick tier (and the table follows)
             w["box"] = {1: 6, 2: 3, 3: 2}[npert]
             w["cap"] = {1: 6, 2: 4, 3: 3}[npert]
+        if fmt in ("scalar_vecs", "implicit") and w.get("atol") == 1e-14:
+            w["atol"] = None  # rounding noise of the projection onto the caller's eigenvectors can exceed 1e-14: the library would reject H_0
         w["comps"] = comps
         extra.pop("solver_sig", None) if not any(sp.get("solver") == "custom" for sp in comps) else None
         w.update(extra)
